@@ -16,6 +16,17 @@ CHECKS = {
     ),
 }
 
+CHECKS["C19"] = dict(
+    category="exploration",
+    text="Registration scripts (every sequence of <=2 decorator-form x scope steps, sampled longer ones, interleaved with "
+    "unregister/unregister_all; auth register/apply/set_from_requests at three scopes) run against the real dispatchers and "
+    "auth storages; hooks log the operations they are invoked for while real cases are drawn; a reference list of "
+    "(hook, own filters, scope) with an independent matcher decides which invocations must and must not happen.",
+    note="4-operation API; filters from a pool of 12; auth precedence between several matching providers is not judged.",
+    technique="runtime monitoring: self-reporting hooks + reference model over registration histories",
+    design_ref="DESIGN.md#c19",
+)
+
 NOT_APPLICABLE = {}
 
 
